@@ -122,9 +122,9 @@ L1 == <<"onset", "duration", "a", "b">>
 P1 == <<Row(L1, <<"1", "1", "x", "x">>), Row(L1, <<"2", "n/a", "x", "x">>), Row(L1, <<"2", "2", "x", "y">>),
         Row(L1, <<"3", "1", "1", "n/a">>), Row(L1, <<"4", "2", "n/a", "x">>), Row(L1, <<"5", "3", "y", "y">>)>>
 L2 == <<"b", "a", "c">>
-P2 == <<Row(L2, <<"x", "x", "1">>), Row(L2, <<"y", "x", "1">>), Row(L2, <<"n/a", "1", "x">>), Row(L2, <<"x", "y", "n/a">>)>>
+P2 == <<Row(L2, <<"x", "x", "1">>), Row(L2, <<"y", "x", "1">>), Row(L2, <<"n/a", "1", "x">>), Row(L2, <<"x", "xy", "n/a">>)>>
 L3 == <<"a">>
-P3 == <<Row(L3, <<"x">>), Row(L3, <<"n/a">>), Row(L3, <<"1">>)>>
+P3 == <<Row(L3, <<"x">>), Row(L3, <<"n/a">>), Row(L3, <<"1">>), Row(L3, <<"xy">>)>>
 L4 == <<"duration", "c", "a", "onset", "b">>
 P4 == <<Row(L4, <<"1", "p", "x", "1", "x">>), Row(L4, <<"1", "q", "x", "2", "x">>), Row(L4, <<"n/a", "1", "y", "3", "n/a">>)>>
 \* all row sequences of length <= n over the pool (duplicates included)
